@@ -23,9 +23,9 @@ theorem Anc.prepend {w : World} {q x p : SlabID} (hqx : Holds w q x) (h : Anc w 
     world acyclic: a rank for the world with the new edge. -/
 theorem rank_insert {w : World} (hr : CRank rank w) (hu : UniqueRef w) {p v : SlabID}
     (hroot : ∀ q, ¬ Holds w q v) (hanc : ¬ Anc w v p) :
-    ∃ rank', CRank rank' w ∧ rank' p < rank' v := by
+    ∃ rank', CRank rank' w ∧ rank' p < rank' v ∧ rank' p = rank p ∧ ∀ z, rank z ≤ rank' z := by
   classical
-  refine ⟨fun z => rank z + (if Anc w v z then rank p + 1 else 0), ?_, ?_⟩
+  refine ⟨fun z => rank z + (if Anc w v z then rank p + 1 else 0), ?_, ?_, ?_, ?_⟩
   · intro q x hqx hx
     by_cases hax : Anc w v x
     · have haq : Anc w v q := by
@@ -47,6 +47,8 @@ theorem rank_insert {w : World} (hr : CRank rank w) (hu : UniqueRef w) {p v : Sl
       omega
   · simp only [if_neg hanc, if_pos Anc.refl]
     omega
+  · simp only [if_neg hanc]; omega
+  · intro z; show rank z ≤ rank z + _; omega
 
 theorem WorldOkGen.with_rank {w : World} {ctr : Nat} {stale : Option SlabID}
     (H : WorldOkGen D rank stale O w ctr) {rank' : SlabID → Nat} (hr : CRank rank' w) :
